@@ -165,39 +165,8 @@ def run(chk):
     chk.check(any(src(n) == "self.responses = queue.Queue()" for n in own_nodes(ci.node) if isinstance(n, ast.Assign)), "R4", f"{CL}:SdoClient.__init__ | queue per client", ci.loc(), "")
 
     # ------------------------------------------------------------------ R5 no shared mutable class state
-    n_cls = 0
-    for m in repo.modules.values():
-        for c in m.classes.values():
-            n_cls += 1
-            for name, val in c.consts.items():
-                mutable = isinstance(val, (ast.List, ast.Dict, ast.Set, ast.ListComp, ast.DictComp, ast.SetComp)) or \
-                    (isinstance(val, ast.Call) and (dotted(val.func) or "") in MUTABLE_CALLS)
-                if not mutable:
-                    continue
-                rebound_in_init = False
-                hits = []
-                for klass in [c] + [k for k in _subclasses(repo, c)]:
-                    for mname, meth in klass.methods.items():
-                        for n in own_nodes(meth.node):
-                            if isinstance(n, ast.Assign) and any(dotted(t) == f"self.{name}" for t in n.targets) and mname == "__init__":
-                                rebound_in_init = True
-                            if isinstance(n, (ast.Assign, ast.AugAssign, ast.Delete)):
-                                tg = n.targets if isinstance(n, (ast.Assign, ast.Delete)) else [n.target]
-                                for t in tg:
-                                    if isinstance(t, ast.Subscript) and dotted(t.value) == f"self.{name}":
-                                        hits.append((meth, n))
-                                if isinstance(n, ast.AugAssign) and dotted(n.target) == f"self.{name}":
-                                    hits.append((meth, n))
-                            if isinstance(n, ast.Call) and isinstance(n.func, ast.Attribute) and dotted(n.func.value) == f"self.{name}" and n.func.attr in MUTATORS:
-                                hits.append((meth, n))
-                if hits and not rebound_in_init:
-                    meth, n = hits[0]
-                    chk.bad("R5", f"{m.rel}:{c.name}.{name} | shared mutable class attribute", meth.loc(n),
-                            f"`{name} = {src(val)}` is a class-level object and `{src(n)[:60]}` mutates it in place: every instance (every node's server/client) "
-                            f"shares it, so concurrent transfers to different nodes see each other's data")
-    chk.ok("R5", "package | no class-level mutable state mutated through self", "canopen/", f"scanned {n_cls} classes")
-    fired = _fixture()
-    chk.fixture("R5", "class-level bytearray mutated in place", fired)
+    from . import shared
+    shared.isolation(chk, "R5")
 
     # ------------------------------------------------------------------ R6 the codec clause of the statement
     # "the bytes held by the local node are exactly the CiA 301 little-endian encoding": the C04 rules, recorded here
